@@ -22,7 +22,7 @@ ASSUMPTIONS = [
     "zero-length files are not put on cassettes here (known finding F-C06-empty-file-ends-listing belongs to C06)",
     "disk histories stop adding when the accounting model says the disk is full (C15 owns refusals)",
 ]
-HEALTH = {"sessions>=2": 0.5, "kind:cas": 0.3, "kind:dsk": 0.3, "big_cassette": 10}
+HEALTH = {"sessions>=2": 0.2, "kind:cas": 0.12, "kind:dsk": 0.12, "big_cassette": 4}
 EXHAUSTIVE = {}
 
 _cas_file = filegen.cas_file(min_len=1, big_weight=0)
